@@ -110,7 +110,6 @@ def _run_sampler(sampler, case, pbn, points_fn, spectrum):
     path = fx.fresh_dir('c06_' + sampler)
     opt = dr.make_optimizer(sampler, obs, p.model, path)
     dr.configure(opt, p.model, case['fitted'], case['priors'])
-    d = len(case['fitted'])
     plan = ds.Plan()
     with _silent(), ds.active(plan):
         opt.compile_params()
